@@ -1,6 +1,8 @@
 import NunVerif.Model.Exec
 import NunVerif.Proofs.AL
 import NunVerif.Proofs.Kv
+import NunVerif.Props.C02
+import NunVerif.Props.C13
 /-
   C03 — watchers get every committed change, only committed changes, and end up current.
 
@@ -14,6 +16,9 @@ namespace Nun
 
 /-- `s` is subscribed to `k` -/
 def Db.Subscribed (db : Db) (k : Bytes) (s : Sid) : Prop := s ∈ (AL.get? db.watchers k).getD []
+
+instance (db : Db) (k : Bytes) (s : Sid) : Decidable (db.Subscribed k s) := by
+  unfold Db.Subscribed; infer_instance
 
 /-- the pushes of a list addressed to `s` -/
 def pushesTo (ps : List Push) (s : Sid) : List Bytes := (ps.filter (·.sid = s)).map (·.line)
@@ -64,23 +69,20 @@ theorem subscribed_unwatch_iff (db : Db) (k k' : Bytes) (s s' : Sid) :
     (db.unwatch k' s').Subscribed k s ↔ (db.Subscribed k s ∧ ¬(k' = k ∧ s' = s)) := by
   unfold Db.Subscribed Db.unwatch
   simp only [AL.get?_put]
-  split
-  · rename_i hk; subst hk
-    simp only [Option.getD_some, List.mem_filter, bne_iff_ne, ne_eq]
+  by_cases hk : k' = k
+  · subst hk
+    simp only [if_true, Option.getD_some, List.mem_filter, bne_iff_ne, ne_eq, true_and]
     constructor
-    · rintro ⟨h1, h2⟩; exact ⟨h1, fun ⟨_, h3⟩ => h2 h3.symm⟩
-    · rintro ⟨h1, h2⟩; exact ⟨h1, fun h3 => h2 ⟨rfl, h3.symm⟩⟩
-  · rename_i hk
-    constructor
-    · intro h1; exact ⟨h1, fun ⟨h2, _⟩ => hk h2⟩
-    · intro h1; exact h1.1
+    · rintro ⟨h1, h2⟩; exact ⟨h1, fun h3 => h2 h3.symm⟩
+    · rintro ⟨h1, h2⟩; exact ⟨h1, fun h3 => h2 h3.symm⟩
+  · simp [hk]
 
 theorem unwatch_nodup (db : Db) (k : Bytes) (s : Sid) (h : db.WatchNodup) : (db.unwatch k s).WatchNodup := by
   intro k'
   unfold Db.unwatch
   simp only [AL.get?_put]
   split
-  · simp only [Option.getD_some]; exact List.Nodup.filter _ (h k)
+  · simp only [Option.getD_some]; exact List.Nodup.sublist List.filter_sublist (h k)
   · exact h k'
 
 theorem unwatchFold_subscribed (ks : List Bytes) (db : Db) (k : Bytes) (s s' : Sid) :
@@ -127,135 +129,192 @@ theorem C03_unsubscribe (db : Db) (k : Bytes) (s : Sid) :
 
 /-! ### what a mutation pushes -/
 
+theorem pair_to (ss : List Sid) (a b : Bytes) (s : Sid) (hnd : ss.Nodup) :
+    pushesTo (ss.flatMap fun x => [⟨x, a⟩, ⟨x, b⟩]) s = if s ∈ ss then [a, b] else [] := by
+  unfold pushesTo
+  induction ss with
+  | nil => simp
+  | cons x rest ih =>
+    simp only [List.nodup_cons] at hnd
+    simp only [List.flatMap_cons, List.filter_append, List.map_append, List.mem_cons]
+    rw [ih hnd.2]
+    by_cases hxs : x = s
+    · subst hxs
+      simp [hnd.1]
+    · have hsx : ¬ s = x := fun h => hxs h.symm
+      simp [hxs, hsx]
+
+theorem single_to (ss : List Sid) (a : Bytes) (s : Sid) (hnd : ss.Nodup) :
+    pushesTo (ss.map fun x => ⟨x, a⟩) s = if s ∈ ss then [a] else [] := by
+  unfold pushesTo
+  induction ss with
+  | nil => simp
+  | cons x rest ih =>
+    simp only [List.nodup_cons] at hnd
+    simp only [List.map_cons, List.filter_cons, List.mem_cons]
+    by_cases hxs : x = s
+    · subst hxs
+      have := ih hnd.2
+      simp only [hnd.1, if_false] at this
+      simp [this]
+    · have hsx : ¬ s = x := fun h => hxs h.symm
+      simp [hxs, hsx, ih hnd.2]
+
 theorem notify_to (db : Db) (k v : Bytes) (ver : Int) (s : Sid) (hn : db.WatchNodup) :
     pushesTo (db.notify k v ver) s =
       if db.Subscribed k s then
         [Gen.changedPrefix ++ k ++ [32] ++ v ++ [10],
          Gen.changedVersionPrefix ++ k ++ [32] ++ Bytes.ofInt ver ++ [32] ++ v ++ [10]]
       else [] := by
-  unfold Db.notify Db.Subscribed pushesTo
   have hnk := hn k
-  cases hg : AL.get? db.watchers k with
-  | none => simp
-  | some ss =>
-    rw [hg] at hnk
-    simp only [Option.getD_some] at hnk ⊢
-    induction ss with
-    | nil => simp
-    | cons a rest ih =>
-      simp only [List.nodup_cons] at hnk
-      simp only [List.flatMap_cons, List.filter_append, List.map_append, List.mem_cons]
-      by_cases has : a = s
-      · subst has
-        have hr : ¬ a ∈ rest := hnk.1
-        have := ih hnk.2
-        simp only [hr, if_false] at this
-        simp [this]
-      · have := ih hnk.2
-        rw [this]
-        have hsa : ¬ s = a := fun h => has h.symm
-        simp [has, hsa]
+  by_cases hsub : db.Subscribed k s
+  · rw [if_pos hsub]
+    unfold Db.notify
+    unfold Db.Subscribed at hsub
+    cases hg : AL.get? db.watchers k with
+    | none => rw [hg] at hsub; simp at hsub
+    | some ss =>
+      rw [hg] at hsub hnk
+      simp only [Option.getD_some] at hsub hnk ⊢
+      rw [pair_to ss _ _ s hnk, if_pos hsub]
+  · rw [if_neg hsub]
+    unfold Db.notify
+    unfold Db.Subscribed at hsub
+    cases hg : AL.get? db.watchers k with
+    | none => simp [pushesTo]
+    | some ss =>
+      rw [hg] at hsub hnk
+      simp only [Option.getD_some] at hsub hnk ⊢
+      rw [pair_to ss _ _ s hnk, if_neg hsub]
 
 theorem notifyRemoved_to (db : Db) (k : Bytes) (s : Sid) (hn : db.WatchNodup) :
     pushesTo (db.notifyRemoved k) s = if db.Subscribed k s then [Gen.removedPrefix ++ k ++ [10]] else [] := by
-  unfold Db.notifyRemoved Db.Subscribed pushesTo
   have hnk := hn k
-  cases hg : AL.get? db.watchers k with
-  | none => simp
-  | some ss =>
-    rw [hg] at hnk
-    simp only [Option.getD_some] at hnk ⊢
-    induction ss with
-    | nil => simp
-    | cons a rest ih =>
-      simp only [List.nodup_cons] at hnk
-      simp only [List.map_cons, List.filter_cons, List.mem_cons]
-      by_cases has : a = s
-      · subst has
-        have hr : ¬ a ∈ rest := hnk.1
-        have := ih hnk.2
-        simp only [hr, if_false] at this
-        simp [this]
-      · have := ih hnk.2
-        have hsa : ¬ s = a := fun h => has h.symm
-        simp [has, hsa, this]
+  by_cases hsub : db.Subscribed k s
+  · rw [if_pos hsub]
+    unfold Db.notifyRemoved
+    unfold Db.Subscribed at hsub
+    cases hg : AL.get? db.watchers k with
+    | none => rw [hg] at hsub; simp at hsub
+    | some ss =>
+      rw [hg] at hsub hnk
+      simp only [Option.getD_some] at hsub hnk ⊢
+      rw [single_to ss _ s hnk, if_pos hsub]
+  · rw [if_neg hsub]
+    unfold Db.notifyRemoved
+    unfold Db.Subscribed at hsub
+    cases hg : AL.get? db.watchers k with
+    | none => simp [pushesTo]
+    | some ss =>
+      rw [hg] at hsub hnk
+      simp only [Option.getD_some] at hsub hnk ⊢
+      rw [single_to ss _ s hnk, if_neg hsub]
 
 /-- a write never touches the subscription table -/
 theorem setValue_watchers (db : Db) (c : Change) : (db.setValue c).1.watchers = db.watchers := by
   unfold Db.setValue
   split
-  · split <;> simp [Db.setValueVersion]
+  · simp only []; split <;> simp [Db.setValueVersion]
   · simp [Db.setValueVersion]
 
-/-- **set / set-safe / replicated write.** Accepted: a subscriber of the key receives exactly one
-`changed` + `changed-version` pair carrying the committed value and version, everybody else
-nothing; refused: nobody receives anything and the database is unchanged. -/
-theorem C03_write_notifies (db : Db) (c : Change) (s : Sid) (hn : db.WatchNodup) :
-    match db.setValue c with
-    | (db', .set _ _, ps) =>
-        (∃ e, db'.getValue c.key = some e ∧ e.value = c.value ∧
-          pushesTo ps s =
-            if db.Subscribed c.key s then
-              [Gen.changedPrefix ++ c.key ++ [32] ++ c.value ++ [10],
-               Gen.changedVersionPrefix ++ c.key ++ [32] ++ Bytes.ofInt e.version ++ [32] ++ c.value ++ [10]]
-            else [])
-    | (db', .versionError .., ps) => ps = [] ∧ db' = db := by
-  unfold Db.setValue
-  split
-  · rename_i old hold
-    split
-    · exact ⟨rfl, rfl⟩
-    · simp only []
-      refine ⟨_, by simp [Db.getValue, Db.setValueVersion, AL.get?_put_same], rfl, ?_⟩
-      rw [notify_to _ _ _ _ _ (by intro k; exact hn k)]
-      rfl
-  · simp only []
-    refine ⟨_, by simp [Db.getValue, Db.setValueVersion, AL.get?_put_same], rfl, ?_⟩
-    rw [notify_to _ _ _ _ _ (by intro k; exact hn k)]
-    rfl
+theorem setValueVersion_watchers (db : Db) (k v : Bytes) (ver : Int) (st : Status) (va ka op : Nat) :
+    (db.setValueVersion k v ver st va ka op).watchers = db.watchers := rfl
 
-/-- **remove.** A subscriber of the key receives exactly one `removed` line, everybody else nothing;
-a refused remove (`$$token`) pushes nothing. -/
-theorem C03_remove_notifies (db : Db) (k : Bytes) (s : Sid) (hn : db.WatchNodup) :
-    match db.removeValue k with
-    | some (_, ps) => pushesTo ps s = if db.Subscribed k s then [Gen.removedPrefix ++ k ++ [10]] else []
-    | none => True := by
-  unfold Db.removeValue
-  split
-  · trivial
-  · simp only []
-    rw [notifyRemoved_to]
-    · congr 1
-      unfold Db.Subscribed
-      split <;> (try split) <;> simp [Db.setValueVersion]
-    · intro k'
-      split <;> (try split) <;> exact hn k'
+theorem subscribed_congr (db db' : Db) (h : db'.watchers = db.watchers) (k : Bytes) (s : Sid) :
+    db'.Subscribed k s ↔ db.Subscribed k s := by unfold Db.Subscribed; rw [h]
 
-/-- **increment.** Accepted: exactly one pair carrying the new number; refused (not a number,
-overflow, version cap): nothing and the database is unchanged. -/
-theorem C03_increment_notifies (db : Db) (k : Bytes) (inc : Int) (op : Nat) (s : Sid) (hn : db.WatchNodup) :
-    match db.incValue k inc op with
-    | (db', .ok, ps) =>
-        ∃ cur, Bytes.parseI32 (db.incText k) = some cur ∧
-          pushesTo ps s =
-            if db.Subscribed k s then
-              [Gen.changedPrefix ++ k ++ [32] ++ Bytes.ofInt (cur + inc) ++ [10],
-               Gen.changedVersionPrefix ++ k ++ [32] ++ Bytes.ofInt (-1) ++ [32] ++ Bytes.ofInt (cur + inc) ++ [10]]
-            else []
-    | (db', _, ps) => ps = [] ∧ db' = db := by
-  unfold Db.incValue
-  split
-  · rename_i cur hcur
-    split
-    · split
-      · exact ⟨rfl, rfl⟩
-      · simp only []
+theorem watchNodup_congr (db db' : Db) (h : db'.watchers = db.watchers) (hn : db.WatchNodup) : db'.WatchNodup := by
+  intro k; rw [h]; exact hn k
+
+/-- **set / set-safe / replicated write, accepted.** A subscriber of the key receives exactly one
+`changed` + `changed-version` pair carrying the committed value and version; everybody else nothing. -/
+theorem C03_write_accepted (db db' : Db) (c : Change) (a b : Bytes) (ps : List Push) (s : Sid) (hn : db.WatchNodup)
+    (h : db.setValue c = (db', .set a b, ps)) :
+    ∃ e, db'.getValue c.key = some e ∧ e.value = c.value ∧
+      pushesTo ps s =
+        if db.Subscribed c.key s then
+          [Gen.changedPrefix ++ c.key ++ [32] ++ c.value ++ [10],
+           Gen.changedVersionPrefix ++ c.key ++ [32] ++ Bytes.ofInt e.version ++ [32] ++ c.value ++ [10]]
+        else [] := by
+  cases hg : db.getValue c.key with
+  | none =>
+    rw [setValue_absent db c hg] at h
+    simp only [Prod.mk.injEq] at h
+    obtain ⟨h1, _, h3⟩ := h
+    subst h1; subst h3
+    refine ⟨{ value := c.value, version := vinc c.version, opId := c.opId, state := .new, vaddr := 0, kaddr := 0 },
+      by simp [Db.getValue, Db.setValueVersion, AL.get?_put_same], rfl, ?_⟩
+    have hn' : (db.setValueVersion c.key c.value (vinc c.version) .new 0 0 c.opId).WatchNodup := watchNodup_congr db _ rfl hn
+    rw [notify_to _ _ _ _ _ hn']
+    simp only [subscribed_congr db _ (setValueVersion_watchers db ..)]
+  | some old =>
+    rw [setValue_on_entry db c old hg] at h
+    split at h
+    · simp at h
+    · simp only [Prod.mk.injEq] at h
+      obtain ⟨h1, _, h3⟩ := h
+      subst h1; subst h3
+      refine ⟨{ value := c.value, version := c.nextVersion old, opId := c.opId, state := updState old.state, vaddr := old.vaddr, kaddr := old.kaddr },
+        by simp [Db.getValue, Db.setValueVersion, AL.get?_put_same], rfl, ?_⟩
+      have hn' : (db.setValueVersion c.key c.value (c.nextVersion old) (updState old.state) old.vaddr old.kaddr c.opId).WatchNodup :=
+        watchNodup_congr db _ rfl hn
+      rw [notify_to _ _ _ _ _ hn']
+      simp only [subscribed_congr db _ (setValueVersion_watchers db ..)]
+
+/-- **refused write.** Nobody receives anything and the database is unchanged. -/
+theorem C03_write_refused (db db' : Db) (c : Change) (k : Bytes) (ov v : Int) (old : Entry) (c' : Change) (st : Status)
+    (ps : List Push) (h : db.setValue c = (db', .versionError k ov v old c' st, ps)) : ps = [] ∧ db' = db := by
+  have := setValue_err_unchanged db db' c k ov v old c' st ps h
+  exact ⟨this.2, this.1⟩
+
+/-- **remove.** A subscriber of the key receives exactly one `removed` line, everybody else nothing. -/
+theorem C03_remove_notifies (db db' : Db) (k : Bytes) (ps : List Push) (s : Sid) (hn : db.WatchNodup)
+    (h : db.removeValue k = some (db', ps)) :
+    pushesTo ps s = if db.Subscribed k s then [Gen.removedPrefix ++ k ++ [10]] else [] := by
+  unfold Db.removeValue at h
+  by_cases hk : k = Gen.tokenKey
+  · simp [hk] at h
+  · simp only [hk, if_false, Option.some.injEq, Prod.mk.injEq] at h
+    obtain ⟨h1, h2⟩ := h
+    have hw : db'.watchers = db.watchers := by
+      rw [← h1]; split <;> (try split) <;> rfl
+    rw [← h2, h1, notifyRemoved_to _ _ _ (watchNodup_congr db _ hw hn)]
+    simp only [subscribed_congr db _ hw]
+
+/-- **increment, accepted.** Exactly one pair carrying the new number. -/
+theorem C03_increment_accepted (db db' : Db) (k : Bytes) (inc : Int) (op : Nat) (ps : List Push) (s : Sid) (hn : db.WatchNodup)
+    (h : db.incValue k inc op = (db', .ok, ps)) :
+    ∃ cur, Bytes.parseI32 (db.incText k) = some cur ∧
+      pushesTo ps s =
+        if db.Subscribed k s then
+          [Gen.changedPrefix ++ k ++ [32] ++ Bytes.ofInt (cur + inc) ++ [10],
+           Gen.changedVersionPrefix ++ k ++ [32] ++ Bytes.ofInt (-1) ++ [32] ++ Bytes.ofInt (cur + inc) ++ [10]]
+        else [] := by
+  unfold Db.incValue at h
+  cases hp : Bytes.parseI32 (db.incText k) with
+  | none => simp [hp] at h
+  | some cur =>
+    simp only [hp] at h
+    split at h
+    · split at h
+      · simp at h
+      · simp only [Prod.mk.injEq] at h
+        obtain ⟨h1, _, h3⟩ := h
         refine ⟨cur, rfl, ?_⟩
-        rw [notify_to]
-        · congr 1
-        · intro k'; unfold Db.incStore; split <;> exact hn k'
-    · exact ⟨rfl, rfl⟩
-  · exact ⟨rfl, rfl⟩
+        have hw : (db.incStore k (Bytes.ofInt (cur + inc)) op).watchers = db.watchers := by
+          unfold Db.incStore; split <;> rfl
+        rw [← h3, notify_to _ _ _ _ _ (watchNodup_congr db _ hw hn)]
+        simp only [subscribed_congr db _ hw]
+    · simp at h
+
+/-- **increment, refused** (not a number, overflow, version cap): nothing is pushed, nothing changes -/
+theorem C03_increment_refused (db db' : Db) (k : Bytes) (inc : Int) (op : Nat) (ps : List Push) (r : IncResp)
+    (hr : r ≠ .ok) (h : db.incValue k inc op = (db', r, ps)) : ps = [] ∧ db' = db := by
+  cases r with
+  | ok => exact absurd rfl hr
+  | notNumeric => have := incValue_notNumeric db db' k inc op ps h; exact ⟨this.2.2, this.2.1⟩
+  | overflow => have := incValue_overflow db db' k inc op ps h; exact ⟨this.2.2, this.2.1⟩
+  | versionCap => have := incValue_versionCap db db' k inc op ps h; exact ⟨this.2.2, this.2.1⟩
 
 /-! ### ending up current -/
 
@@ -272,6 +331,11 @@ def runWrites (db : Db) (s : Sid) : List Change → Db × List Bytes
       let r := runWrites db' s rest
       (r.1, pushesTo ps s ++ r.2)
 
+theorem runWrites_cons (db : Db) (s : Sid) (c : Change) (rest : List Change) :
+    runWrites db s (c :: rest) =
+      ((runWrites (db.setValue c).1 s rest).1, pushesTo (db.setValue c).2.2 s ++ (runWrites (db.setValue c).1 s rest).2) := by
+  simp only [runWrites]
+
 theorem runWrites_refused_keeps (db : Db) (s : Sid) (cs : List Change) (k : Bytes) (e : Entry) (hn : db.WatchNodup)
     (hsub : db.Subscribed k s) (hk : ∀ c ∈ cs, c.key = k) (hnil : (runWrites db s cs).2 = [])
     (hget : db.getValue k = some e) : (runWrites db s cs).1.getValue k = some e := by
@@ -279,69 +343,58 @@ theorem runWrites_refused_keeps (db : Db) (s : Sid) (cs : List Change) (k : Byte
   | nil => exact hget
   | cons c rest ih =>
     have hck : c.key = k := hk c (by simp)
-    have hw := C03_write_notifies db c s hn
-    simp only [runWrites] at hnil ⊢
-    generalize hres : db.setValue c = res at hw hnil
-    obtain ⟨db', resp, ps⟩ := res
+    rw [runWrites_cons] at hnil ⊢
     simp only [List.append_eq_nil_iff] at hnil
+    have hwat := setValue_watchers db c
+    rcases hres : db.setValue c with ⟨db', resp, ps⟩
+    simp only [hres] at hnil hwat ⊢
     cases resp with
     | versionError a b c1 d e1 f =>
-      simp only [] at hw
-      obtain ⟨_, hdb⟩ := hw
-      subst hdb
-      exact ih db' hn hsub (fun c' hc' => hk c' (by simp [hc'])) hnil.2 hget
+      have := C03_write_refused db db' c a b c1 d e1 f ps hres
+      rw [this.2]
+      rw [this.2] at hnil
+      exact ih db hn hsub (fun c' hc' => hk c' (by simp [hc'])) hnil.2 hget
     | set a b =>
-      simp only [] at hw
-      obtain ⟨e2, _, _, hpush⟩ := hw
+      obtain ⟨e2, _, _, hpush⟩ := C03_write_accepted db db' c a b ps s hn hres
       rw [hck] at hpush
-      simp only [hsub, if_true] at hpush
+      rw [if_pos hsub] at hpush
       rw [hpush] at hnil
       simp at hnil
 
 /-- **ends up current.** While `s` stays subscribed to `k`, after any sequence of writes to `k`
-(accepted or refused, from anyone) of which at least one was accepted, the LAST notification pair
-`s` received carries the value the key now has. -/
+(accepted or refused, from anyone) either `s` received nothing (all were refused) or the LAST
+notification `s` holds carries the value and version the key now has. -/
 theorem C03_ends_current (db : Db) (s : Sid) (k : Bytes) (cs : List Change) (hn : db.WatchNodup)
     (hsub : db.Subscribed k s) (hk : ∀ c ∈ cs, c.key = k) :
-    let r := runWrites db s cs
-    r.2 = [] ∨ ∃ e, r.1.getValue k = some e ∧
-      r.2.getLast? = some (Gen.changedVersionPrefix ++ k ++ [32] ++ Bytes.ofInt e.version ++ [32] ++ e.value ++ [10]) := by
+    (runWrites db s cs).2 = [] ∨ ∃ e, (runWrites db s cs).1.getValue k = some e ∧
+      (runWrites db s cs).2.getLast? = some (Gen.changedVersionPrefix ++ k ++ [32] ++ Bytes.ofInt e.version ++ [32] ++ e.value ++ [10]) := by
   induction cs generalizing db with
   | nil => left; rfl
   | cons c rest ih =>
     have hck : c.key = k := hk c (by simp)
-    have hw := C03_write_notifies db c s hn
-    simp only [runWrites]
+    rw [runWrites_cons]
     have hwat := setValue_watchers db c
-    generalize hres : db.setValue c = res at hw hwat
-    obtain ⟨db', resp, ps⟩ := res
-    simp only [] at hwat
-    have hn' : db'.WatchNodup := by intro k'; rw [hwat]; exact hn k'
-    have hsub' : db'.Subscribed k s := by unfold Db.Subscribed; rw [hwat]; exact hsub
+    rcases hres : db.setValue c with ⟨db', resp, ps⟩
+    simp only [hres] at hwat ⊢
+    have hn' : db'.WatchNodup := watchNodup_congr db db' hwat hn
+    have hsub' : db'.Subscribed k s := (subscribed_congr db db' hwat k s).2 hsub
     have ihr := ih db' hn' hsub' (fun c' hc' => hk c' (by simp [hc']))
     cases resp with
     | versionError a b c1 d e f =>
-      simp only [] at hw
-      obtain ⟨hps, hdb⟩ := hw
-      subst hps
+      have := C03_write_refused db db' c a b c1 d e f ps hres
+      rw [this.1]
       simpa [pushesTo] using ihr
     | set a b =>
-      simp only [] at hw
-      obtain ⟨e, hget, hval, hpush⟩ := hw
+      obtain ⟨e, hget, hval, hpush⟩ := C03_write_accepted db db' c a b ps s hn hres
       rw [hck] at hpush hget
-      simp only [hsub, if_true] at hpush
+      rw [if_pos hsub] at hpush
+      right
       rcases ihr with hnil | ⟨e', hget', hlast'⟩
-      · right
-        -- no later notification: later writes were all refused, the key still holds e
-        refine ⟨e, ?_, ?_⟩
-        · exact runWrites_refused_keeps db' s rest k e hn' hsub' (fun c' hc' => hk c' (by simp [hc'])) hnil hget
-        · simp only []
-          rw [hnil, List.append_nil, hpush, ← hval]
-          simp
-      · right
-        refine ⟨e', hget', ?_⟩
-        simp only []
-        rw [List.getLast?_append_of_ne_nil _ (by intro h; rw [h] at hlast'; simp at hlast')]
-        exact hlast'
+      · refine ⟨e, runWrites_refused_keeps db' s rest k e hn' hsub' (fun c' hc' => hk c' (by simp [hc'])) hnil hget, ?_⟩
+        rw [hnil, List.append_nil, hpush, ← hval]
+        simp
+      · refine ⟨e', hget', ?_⟩
+        rw [List.getLast?_append, hlast']
+        rfl
 
 end Nun
